@@ -26,7 +26,7 @@ LEVEL_TEXT = ("Scenarios with continuous release, deaths by IBM age limit and by
 LEVEL_NOTE = ("Tolerance 1e-9 with float64 forcing files, 2e-6 relative (f4 output precision) with float32 forcing files because u += dU accumulates in a different order after a restart. An additional final "
               "record at the stop time in the restarted run and a different default reference time are documented behaviour and are not judged.")
 RULE = ("case = scenario; every completed file except the last is a restart point. Non-trivial restart point: particles are released and die after it; distinct by scenario parameters and file index.")
-MANDATORY = ["time_reversed_run_restarted", "inactive_particles_carried_over_the_restart", "release_file_time_off_the_frequency_axis", "output_root_ending_in_digit_or_underscore", "forcing_frames_between_model_steps", "forcing_in_several_files", "restart_between_forcing_files", "restart_points", "records_compared", "newest_pids_dead_in_last_record", "newest_pids_dead_in_last_record_no_particle_variables", "new_release_after_restart", "death_after_restart", "left_grid", "duration_not_multiple_of_period", "scheme_EF", "scheme_RK2", "scheme_RK4",
+MANDATORY = ["packed_variable_in_the_restart_file", "time_reversed_run_restarted", "inactive_particles_carried_over_the_restart", "release_file_time_off_the_frequency_axis", "output_root_ending_in_digit_or_underscore", "forcing_frames_between_model_steps", "forcing_in_several_files", "restart_between_forcing_files", "restart_points", "records_compared", "newest_pids_dead_in_last_record", "newest_pids_dead_in_last_record_no_particle_variables", "new_release_after_restart", "death_after_restart", "left_grid", "duration_not_multiple_of_period", "scheme_EF", "scheme_RK2", "scheme_RK4",
              "particle_variable_compared", "file_names_compared"]
 ASSUMPTIONS = ["diffusion off (as the property states)", "sparse layout (warm start reads particle_count)"]
 TIMEOUT = {"quick": 1200, "thorough": 3500}
@@ -123,6 +123,9 @@ def build(case: dict[str, Any]):
                           default_values=dict(age=0.0, weight=1.0, temp=0.0)),
                ibm=dict(module=C.REC_IBM, age=True, lifetime=lifetime, weight_from="temp", weight_from_position=True, log=False),
                output=dict(period=P * dt, numrec=numrec, instance=dict(pid="i4", X="f8", Y="f8", Z="f8", age="f8", weight="f8", temp="f8"), particle=dict(release_time="f8") if pvars else {}))
+    if case["idx"] % 3 == 1:
+        # a variable carried over the restart is stored packed (integer type + scale_factor; every age is a whole number of steps, so nothing is lost)
+        run["output"]["instance"]["age"] = dict(datatype="i4", scale_factor=float(dt))
     inactive = bool(case["idx"] % 2 == 0)
     if inactive:
         # the IBM switches particles off (alive, not moved); the standard state variable `active` is part of the output so that a restart can carry it on
@@ -142,7 +145,7 @@ def build(case: dict[str, Any]):
         run.update(start=str(end), stop=C.T0, reversed=True)
         if "deactivate_time" in run["ibm"]:
             run["ibm"]["deactivate_time"] = {mir(k): v for k, v in run["ibm"]["deactivate_time"].items()}
-    return dict(world=world, run=run), dict(P=P, numrec=numrec, ns=ns, dt=dt, scheme=scheme, store=store, freq=freq, lifetime=lifetime, reversed=rev, pvars=pvars, inactive=inactive, offgrid=bool(offgrid), offaxis=bool(offaxis and not case.get("gap") and not case.get("newest_dead")))
+    return dict(world=world, run=run), dict(P=P, numrec=numrec, ns=ns, dt=dt, scheme=scheme, store=store, freq=freq, lifetime=lifetime, reversed=rev, pvars=pvars, inactive=inactive, packed_age=bool(case["idx"] % 3 == 1), offgrid=bool(offgrid), offaxis=bool(offaxis and not case.get("gap") and not case.get("newest_dead")))
 
 
 def decode_pvar(f, name):
@@ -177,6 +180,7 @@ def run_case(case: dict[str, Any], wd: Path) -> dict[str, Any]:
     sit["forcing_in_several_files"] = int(len(scn["world"]["files"]) > 1)
     sit["forcing_frames_between_model_steps"] = int(par.get("offgrid", False))
     sit["time_reversed_run_restarted"] = int(bool(par.get("reversed")))
+    sit["packed_variable_in_the_restart_file"] = int(bool(par.get("packed_age")))
     sit["inactive_particles_carried_over_the_restart"] = int(bool(par.get("inactive")))
     sit["release_file_time_off_the_frequency_axis"] = int(par.get("offaxis", False))
     if not resA.ok:
